@@ -1,4 +1,5 @@
 import AranyaV.Proofs.Sync
+import AranyaV.Proofs.SyncFnsMain
 /-!
 # C17 — Sync sessions are sound and terminate
 
@@ -477,35 +478,6 @@ theorem gcLoop_no_overflow (lim : Limits) (s : Store) (sz : Nat → Nat) (maxLen
 
 /-! ## parents first -/
 
-/-- Closure property of a `to_send` list relative to a set `cov` of covered locations (the
-ancestors-or-self of the peer's sample): every entry points into its segment, and every parent of
-the entry's first command is covered or lies in the range of an *earlier* entry. -/
-def ToSendOK (s : Store) (cov : Loc → Prop) (ts : List Loc) : Prop :=
-  ∀ k e, ts[k]? = some e →
-    (∃ g, s.seg? e.seg = some g ∧ g.first ≤ e.mc) ∧
-    ∀ p ∈ s.parents e, cov p ∨
-      ∃ (k' : Nat) (e' : Loc), k' < k ∧ ts[k']? = some e' ∧ e'.seg = p.seg ∧ e'.mc ≤ p.mc ∧ s.valid p = true
-
-theorem mem_entryLocs {s : Store} {e x : Loc} :
-    x ∈ entryLocs s e ↔ x.seg = e.seg ∧ e.mc ≤ x.mc ∧ x.mc < e.mc + (entryIds s e).length := by
-  unfold entryLocs
-  simp only [List.mem_map, List.mem_range]
-  constructor
-  · rintro ⟨j, hj, rfl⟩; exact ⟨rfl, by simp, by simp; omega⟩
-  · rintro ⟨h1, h2, h3⟩
-    refine ⟨x.mc - e.mc, by omega, ?_⟩
-    cases x; simp at h1 h2 ⊢; exact ⟨by omega, h1.symm⟩
-
-/-- a valid location of the same segment at or above an entry's start is in the entry's range -/
-theorem mem_entryLocs_of_valid {s : Store} {e p : Loc} (hseg : e.seg = p.seg) (hle : e.mc ≤ p.mc)
-    (hv : s.valid p = true) (hfirst : ∃ g, s.seg? e.seg = some g ∧ g.first ≤ e.mc) :
-    p ∈ entryLocs s e := by
-  obtain ⟨g, hg, h1⟩ := hfirst
-  obtain ⟨g', hg', _, h3⟩ := valid_iff.mp hv
-  rw [← hseg, hg] at hg'; cases hg'
-  rw [mem_entryLocs, entryIds_length_valid hg h1]
-  exact ⟨hseg.symm, hle, by omega⟩
-
 /-- **Commands arrive parents-first.**  If the `to_send` list has the closure property
 `ToSendOK`, then in the sequence of command locations it stands for — which by `session_stream`
 / `session_terminates` is the concatenation of the session's responses, whatever the batching —
@@ -598,6 +570,22 @@ theorem parents_first (s : Store) (cov : Loc → Prop) (ts : List Loc) (hok : To
         rw [hpre']
         simpa [streamLocs, List.flatMap_append] using hm
 
+/-- **What `find_needed_segments` computes can be sent parents-first.**  On a well-formed store
+(priors and skip entries point at ancestors with smaller max cuts — the invariant of C11) with
+command locations as heads: the result `ts` of `find_needed_segments` for any sample has the
+closure property, hence in the command sequence it stands for every parent of every command is an
+ancestor-or-self of a command of the sample that the responder could locate (`Cov`), or occurs
+earlier.  No bound on the graph, the sample or the limits. -/
+theorem fns_parents_first {s : Store} (hwf : WF s) {lim : Limits} {heads : List Loc}
+    {commands : List Addr} {ts : List Loc} (hh : ∀ h ∈ heads, s.valid h = true)
+    (h : findNeeded lim s heads commands = .ok ts) :
+    ∃ haves : List Loc,
+      (∀ x ∈ haves, s.valid x = true ∧ ∃ a ∈ commands, getLocation s heads a = .ok (some x)) ∧
+      ∀ (pre post : List Loc) (x : Loc), streamLocs s ts = pre ++ x :: post →
+        ∀ p ∈ s.parents x, Cov s haves p ∨ p ∈ pre := by
+  obtain ⟨haves, h1, h2⟩ := fns_toSendOK hwf hh h
+  exact ⟨haves, h1, parents_first s (Cov s haves) ts h2⟩
+
 /-! ## non-vacuity: concrete stores, sessions that stop inside a segment -/
 
 /-- two segments: init + 4 commands, then 3 more; the second one starts at max cut 5 -/
@@ -638,6 +626,39 @@ example : ToSendOK exStore (fun l => l = ⟨1, 0⟩ ∨ l = ⟨0, 0⟩) [⟨2, 0
     subst this
     exact Or.inr ⟨0, ⟨2, 0⟩, by omega, rfl, rfl, by decide, by decide⟩
   | k + 2, hk => simp at hk
+
+/-- the example store is well formed -/
+theorem exStore_wf : WF exStore := by
+  have hsegs : ∀ i g, exStore.seg? i = some g → g ∈ exStore.segs := fun i g h => seg?_mem h
+  constructor
+  · intro i g hg p hp
+    have hm := hsegs i g hg
+    simp only [exStore, List.mem_cons, List.not_mem_nil, or_false] at hm
+    rcases hm with rfl | rfl
+    · simp [Prior.toList] at hp
+    · simp only [Prior.toList, List.mem_singleton] at hp
+      subst hp
+      exact ⟨by decide, by decide⟩
+  · intro i g hg k hk
+    have hm := hsegs i g hg
+    simp only [exStore, List.mem_cons, List.not_mem_nil, or_false] at hm
+    rcases hm with rfl | rfl <;> simp at hk
+
+example : ∃ haves : List Loc, ∀ (pre post : List Loc) (x : Loc),
+    streamLocs exStore [⟨2, 0⟩, ⟨5, 7⟩] = pre ++ x :: post →
+      ∀ p ∈ exStore.parents x, Cov exStore haves p ∨ p ∈ pre := by
+  have h : findNeeded exLim exStore [⟨7, 7⟩] [⟨11, 1⟩] = .ok [⟨2, 0⟩, ⟨5, 7⟩] := by
+    cases hf : findNeeded exLim exStore [⟨7, 7⟩] [⟨11, 1⟩] with
+    | error e =>
+      have : (match findNeeded exLim exStore [⟨7, 7⟩] [⟨11, 1⟩] with | .ok _ => true | .error _ => false) = true := by
+        decide
+      rw [hf] at this; cases this
+    | ok l =>
+      have : (match findNeeded exLim exStore [⟨7, 7⟩] [⟨11, 1⟩] with | .ok l => l | .error _ => []) =
+          [⟨2, 0⟩, ⟨5, 7⟩] := by decide
+      rw [hf] at this; simp only at this; rw [this]
+  obtain ⟨haves, _, h2⟩ := fns_parents_first exStore_wf (by decide) h
+  exact ⟨haves, h2⟩
 
 example : (match findNeeded exLim exStore [⟨7, 7⟩] [⟨11, 1⟩] with | .ok l => l | .error _ => []) = [⟨2, 0⟩, ⟨5, 7⟩] := by
   decide
